@@ -16,9 +16,11 @@ RULE = (
     "by tick is a complete record of which calls were composed in which order on which inputs. State = (held time, held "
     "term); canonical form = held time (the runtime never inspects the estimate). From every reachable state: every "
     "tick with output in held + {-1.5h, 0, 0.5h, 2.5h} and every reading list of length <= 2 (quick) / <= 3 (thorough) "
-    "over times held + {-1.5h, 0, 0.5h, 2.5h, 4h} x sensors {a, b} (all orders, duplicates, before the held time, after "
+    "over times held + {-1.5h, 0, 0.5h, 2.5h, 4h} x sensors {a, b, n} where n is a sensor whose readings the filter rejects "
+    "(returns its input estimate unchanged) (all orders, duplicates, before the held time, after "
     "the output time), BFS to depth 3 ticks from 2 start times and 2 controls settings. Each transition compared with "
-    "the reference fold; reading-less ticks checked differentially; control-less tick of a control model must be "
+    "the reference fold, and the calls issued during the tick are split at the sensor calls into moves whose summed dt "
+    "must equal reading time - held time (then output time - last reading time); reading-less ticks checked differentially; control-less tick of a control model must be "
     "refused; the C++ runtime is driven through the same histories and must issue the same call sequence. "
     "distinct = distinct (held time, tick) transitions; non-trivial = tick with >= 1 reading."
 )
@@ -31,7 +33,13 @@ H = 0.1
 TOL = 1e-9
 OUT_OFFS = [-1.5, 0.0, 0.5, 2.5]
 READ_OFFS = [-1.5, 0.0, 0.5, 2.5, 4.0]
-SENSORS = ["a", "b"]
+SENSORS = ["a", "b", "n"]  # "n": a sensor whose reading the filter rejects (returns its inputs unchanged)
+
+
+def _sc(state, covariance):
+    """the real filter returns formak.python.StateAndCovariance (a namedtuple): keep the stand-in's interface identical"""
+    from formak.python import StateAndCovariance
+    return StateAndCovariance(state, covariance)
 
 
 class Symbolic:
@@ -43,12 +51,14 @@ class Symbolic:
     def process_model(self, dt, state, covariance, control=None):
         self.calls.append(("P", dt))
         t = ("P", dt, state, covariance, control)
-        return t, t
+        return _sc(t, t)
 
     def sensor_model(self, state, covariance, *, sensor_key, sensor_reading):
         self.calls.append(("S", sensor_key))
+        if sensor_key == "n":  # rejected by innovation filtering: estimate returned unchanged (same objects)
+            return _sc(state, covariance)
         t = ("S", sensor_key, sensor_reading, state, covariance)
-        return t, t
+        return _sc(t, t)
 
     def make_reading(self, key, *, data=None, **kwargs):
         return ("R", key, tuple(sorted(kwargs.items())))
@@ -77,14 +87,19 @@ def nf(term):
 
 
 def drop_small(n):
+    """merge directly nested P* nodes (a rejected reading leaves no node between two moves) and drop |dt| <= 1e-9"""
     if n[0] == "init":
         return n
     if n[0] == "S":
         return ("S", n[1], n[2], drop_small(n[3]))
     inner = drop_small(n[2])
-    if abs(n[1]) <= TOL:
+    total = n[1]
+    if inner[0] == "P*" and inner[3] == n[3]:
+        total += inner[1]
+        inner = inner[2]
+    if abs(total) <= TOL:
         return inner
-    return ("P*", n[1], inner, n[3])
+    return ("P*", total, inner, n[3])
 
 
 def same(a, b):
@@ -100,7 +115,9 @@ def same(a, b):
 def ref_tick(held_t, held_nf, out, readings, u, data_of):
     t, v = held_t, held_nf
     for (rt, key, z) in readings:
-        v = ("S", key, data_of(key, z), ("P*", rt - t, v, u))
+        v = ("P*", rt - t, v, u)
+        if key not in ("n", 2):
+            v = ("S", key, data_of(key, z), v)
         t = rt
     return (t, v), ("P*", out - t, v, u)
 
@@ -142,8 +159,10 @@ def run_history(history, t0, ctrl, form="data"):
             kw["control"] = ctrl
         if readings or form == "data":
             kw["readings"] = rs
+        before = len(impl.calls)
         r = mf.tick(out, **kw)
         results.append(r)
+        impl.per_tick = getattr(impl, "per_tick", []) + [impl.calls[before:]]
     return mf, impl, results
 
 
@@ -277,9 +296,12 @@ def check_history(hist, t0, ctrl, live=None):
     held = (t0, ("init", 0))
     bad = []
     for i, ((out, readings), res) in enumerate(zip(hist, results)):
+        held_before = held[0]
         held, exp = ref_tick(held[0], held[1], out, readings, ctrl, lambda k, z: ("Z", z))
         if i < len(hist) - 1 and live is not None:
             continue  # earlier ticks were checked when their own transition was explored
+        for k_, w_ in check_moves(impl.per_tick[i], held_before, out, readings, "py"):
+            bad.append((k_, f"{w_}; history {hist}"))
         try:
             state_t, cov_t = res[0], res[1]
             if state_t != cov_t:
@@ -302,6 +324,33 @@ def check_history(hist, t0, ctrl, live=None):
             bad.append(("held-estimate:py", f"held estimate {show(gheld)}; fold gives {show(drop_small(held[1]))} after {hist}"))
     except Mismatch as e:
         bad.append(("estimate-threading:py", f"{e} after {hist}"))
+    return bad
+
+
+def check_moves(calls, held_t, out, readings, lab):
+    """each reading in the order given: one move of the held estimate to the reading's timestamp, then its sensor update;
+    finally one move to the output time. calls = [('P', dt) | ('S', key)] issued during this tick."""
+    segs, keys, cur = [], [], 0.0
+    for c in calls:
+        if c[0] == "P":
+            cur += c[1]
+        else:
+            segs.append(cur)
+            keys.append(c[1])
+            cur = 0.0
+    segs.append(cur)
+    want_keys = [k for _, k, _ in readings]
+    if keys != want_keys:
+        return [(f"sensor-call-order:{lab}", f"sensor updates issued for {keys}, readings given as {want_keys}")]
+    targets = [rt for rt, _, _ in readings] + [out]
+    t = held_t
+    bad = []
+    for i, (seg, target) in enumerate(zip(segs, targets)):
+        if abs(seg - (target - t)) > 2 * TOL:
+            what = f"reading {i} at {target}" if i < len(readings) else f"the output time {out}"
+            bad.append((f"move-length:{lab}", f"the move to {what} covered {seg!r} s, the estimate was held at {t!r} (expected {target - t!r})"))
+            break
+        t = target
     return bad
 
 
